@@ -135,6 +135,22 @@ func genC18(t *rapid.T) *c18Case {
 		c.Tree.Normalize()
 		c.Requests = []string{rapid.SampledFrom([]string{"cur/f*", "cur/f?", "/cur/*1", "cur/[ef]1"}).Draw(t, "wb.req")}
 	}
+	// steered shape: link names that contain a backslash, requested with a pattern that
+	// spells the backslash escaped, right in front of a wildcard
+	if rapid.IntRange(0, 9).Draw(t, "backslashwild") == 0 {
+		tr := &h.Tree{Nodes: []h.Node{
+			{Path: "dir", Kind: h.KDir, Perm: 0o755},
+			{Path: `dir/rel\cur`, Kind: h.KSymlink, Perm: 0o777, Target: rapid.SampledFrom([]string{"../store/v1", "/store/v1"}).Draw(t, "bw.t1")},
+			{Path: "dir/plain", Kind: h.KFile, Perm: 0o644, Size: 3, Seed: 5},
+			{Path: `rel\top`, Kind: h.KSymlink, Perm: 0o777, Target: rapid.SampledFrom([]string{"store/other", "/store/other"}).Draw(t, "bw.t2")},
+			{Path: "store", Kind: h.KDir, Perm: 0o755},
+			{Path: "store/v1", Kind: h.KFile, Perm: 0o644, Size: 9, Seed: 7},
+			{Path: "store/other", Kind: h.KFile, Perm: 0o644, Size: 9, Seed: 8},
+		}}
+		tr.Normalize()
+		c.Tree = tr
+		c.Requests = []string{rapid.SampledFrom([]string{`dir/rel\\*`, `rel\\*`, `dir/rel\\?ur`, `/dir/rel\\[a-c]ur`, `rel\\to?`}).Draw(t, "bw.req")}
+	}
 	// steered shape: one request that reads a few hundred links (no chain longer than
 	// one hop): budgets and guards must count per chain, not per call
 	if rapid.IntRange(0, 1999).Draw(t, "manylinks") == 0 {
